@@ -95,6 +95,7 @@ def treeStep (c : TreeCfg) (s : TreeS) (op : String) (args : List Int) : Option 
   | "rcap", [] => some (s, toString s.capacity)
   | "rfull", [] => some (s, boolStr s.isFull)
   | "rempty", [] => some (s, boolStr s.isEmpty)
+  | "dlen", [_] => some (s, "?")   -- answered by the driver, which knows the byte format
   | "fill", [base, lim] =>
     match fillCount c lim.toNat m base 0 with
     | .ok n => some (m, toString n)
